@@ -20,7 +20,7 @@ func init() {
 					nv = 20
 				}
 				all := versionTemplates(eco, "m")
-				vs := thin(all, nv)
+				vs := pick(eco, all, nv)
 				third := thin(all, 2)
 				for _, s := range vs {
 					for _, pd := range pads {
